@@ -5,7 +5,7 @@
     receiving side's decoder and decompressor as section variables); the theorems hold for every
     library that satisfies the two round-trip laws stated as hypotheses.  The correspondence suites
     instantiate them with the real codecs and gzip (tables of the values that occur). *)
-From VG Require Import Model.Bytes Model.Stream Model.Envelope Model.Reader.
+From VG Require Import Model.Bytes Model.Stream Model.Envelope Model.Reader Model.Response.
 From VG Require Import Proofs.StreamProofs Proofs.ReaderProofs Proofs.PipelineProofs.
 Open Scope Z_scope.
 
@@ -50,3 +50,35 @@ Proof.
   destruct S as (_ & env & De & _ & _ & _ & Hp & Hc & Hf & _). exists env. auto.
 Qed.
 Print Assumptions C01_message_boundaries.
+
+(** * The response direction *)
+
+(** Re-encoding path: what the client decodes is the message the backend encoded. *)
+Theorem C01_reencoded_response_is_faithful :
+  forall (msg_of_client gunzip_client : bytes -> option bytes) (cx : wctx),
+  (forall m e, o_encode (w_or cx) m = Some e -> msg_of_client e = Some m) ->
+  (forall b, gunzip_client (o_compress (w_or cx) b) = Some b) ->
+  forall has_comp was_comp payload out,
+  w_same_resp_codec cx = false ->
+  advance_resp cx has_comp was_comp payload = inl out ->
+  exists m, backend_meant cx has_comp was_comp payload = Some m /\
+            client_reads msg_of_client gunzip_client ((was_comp || resp_must cx has_comp) && has_comp) out = Some m.
+Proof. intros. eapply reencoded_response_is_faithful; eauto. Qed.
+Print Assumptions C01_reencoded_response_is_faithful.
+
+(** Same codec: relayed byte for byte, or compressed because the client's protocol cannot flag single messages. *)
+Theorem C01_relayed_response_is_verbatim : forall cx has_comp was_comp payload out,
+  w_same_resp_codec cx = true -> advance_resp cx has_comp was_comp payload = inl out ->
+  out = payload \/ (was_comp = false /\ resp_must cx has_comp = true /\ out = o_compress (w_or cx) payload).
+Proof. exact relayed_response_is_verbatim. Qed.
+Print Assumptions C01_relayed_response_is_verbatim.
+
+(** A response message that cannot be carried fails; it is never replaced by another one. *)
+Theorem C01_response_failure_is_an_error : forall cx has_comp was_comp payload e,
+  advance_resp cx has_comp was_comp payload = inr e ->
+  w_same_resp_codec cx = false /\
+  (o_decompress (w_or cx) payload = None \/
+   exists p, (p = payload \/ o_decompress (w_or cx) payload = Some p) /\
+             (o_decode (w_or cx) p = None \/ exists m, o_decode (w_or cx) p = Some m /\ o_encode (w_or cx) m = None)).
+Proof. exact response_failure_is_an_error. Qed.
+Print Assumptions C01_response_failure_is_an_error.
